@@ -7,6 +7,16 @@ them is a violation), needs_mosn_binary.
 """
 
 JOBS = {
+    "C05": [
+        {"cmd": "c05-policies", "race": False, "batches": {"quick": 8, "thorough": 16}, "timeout": {"quick": 300, "thorough": 1500}},
+        {"cmd": "c05-concurrent", "race": True, "timeout": {"quick": 300, "thorough": 1500},
+         "race_anchors": ["cluster.(*simpleCluster).UpdateHosts", "cluster.(*simpleCluster).Snapshot", "cluster.(*clusterManager).GetClusterSnapshot",
+                          "cluster.(*hostSet)", "cluster.NewHostSet"]},
+    ],
+    "C06": [
+        {"cmd": "c06-draw", "race": False, "timeout": {"quick": 300, "thorough": 1500}},
+        {"cmd": "c06-wrr", "race": False, "timeout": {"quick": 300, "thorough": 1500}},
+    ],
     "C16": [
         {"cmd": "c16-steer", "race": True, "timeout": {"quick": 300, "thorough": 900},
          "race_anchors": ["cluster.SetHealthFlag", "cluster.ClearHealthFlag"]},
